@@ -6,8 +6,9 @@
    and grpc/scenario; grpc/json; the generic decode provider over MultiPassReader), every
    limit and passes in nat, every file [es] of n >= 1 entries, every fuel, every cancellation
    point.  The number of consumers does not occur: what is sent to the sink does not depend
-   on who receives it.  [cfg0 lim pas] is the configuration without a chosencases filter
-   (the filter is property C14).  [step_const] = 4. *)
+   on who receives it.  [cfg0 lim pas] is the configuration without a chosencases list;
+   the statements under a list ([cfgc lim pas ch], any list) are C08_filtered and
+   C08_nothing_chosen_ends at the end of this file.  [step_const] = 4. *)
 From Coq Require Import List Arith Bool NArith.
 From PV Require Import Model.Provider Model.ProviderFile Model.ProviderScan Model.ProviderFrame Model.Preload Model.ProviderProbe Proofs.ProviderProofs Proofs.ProviderFileProofs Proofs.ProviderScanProofs Proofs.ProviderFrameProofs Proofs.PreloadProofs Proofs.ProviderFilterProofs.
 Import ListNotations.
